@@ -571,7 +571,25 @@ fn make_key<A: CodonCodec>(text: &str, kp: &KeyPres, alpha: &[u8]) -> Seq<A> {
             let rev: Seq<A> = syms.iter().rev().copied().collect();
             let comp: Seq<A> = text.bytes().map(|c| sym::<A>(A::comp_letter(c))).collect();
             let revcomp: Seq<A> = text.bytes().rev().map(|c| sym::<A>(A::comp_letter(c))).collect();
-            match rng.below(6) {
+            match rng.below(8) {
+                6 | 7 => {
+                    // the result of `|` / `&` on two windows that do not start on a word boundary
+                    // (x | x = x and x & x = x for every codec; the result keeps the left operand's
+                    // bit offset inside its storage)
+                    let mut all = filler::<A>(&mut rng, alpha, kp.off);
+                    all.extend(syms.iter().copied());
+                    all.extend(filler::<A>(&mut rng, alpha, 2));
+                    let left: Seq<A> = all.into_iter().collect();
+                    let off2 = rng.below(7);
+                    let mut all2 = filler::<A>(&mut rng, alpha, off2);
+                    all2.extend(syms.iter().copied());
+                    let right: Seq<A> = all2.into_iter().collect();
+                    if rng.chance(1, 2) {
+                        &left[kp.off..kp.off + n] | &right[off2..off2 + n]
+                    } else {
+                        &left[kp.off..kp.off + n] & &right[off2..off2 + n]
+                    }
+                }
                 0 => rev.to_rev(),
                 1 => comp.to_comp(),
                 2 => revcomp.to_revcomp(),
